@@ -117,6 +117,19 @@ def extract_si4_sources():
     except (RuntimeError, OSError):
         render = None
     common.write_if_changed(os.path.join(d, "c20_render_fn.inc"), (render or "/* gsm48_rr_render_ma not found */") + "\n")
+    # the immediate-assignment handlers and what they call
+    try:
+        rrc = os.path.join(REPO, GSM48_RR_C)
+        with open(rrc) as f:
+            m = re.search(r"^#define\s+IMM_ASS_HISTORY\b.*$", f.read(), re.M)
+        ass = [m.group(0) if m else "#error IMM_ASS_HISTORY not found"]
+        for name in ("gsm48_decode_start_time", "gsm48_match_ra", "gsm48_rr_rx_imm_ass", "gsm48_rr_rx_imm_ass_ext"):
+            ass.append(common.c_function_text(rrc, name))
+        _SI4["assign_text"] = "\n\n".join(ass[3:])
+        common.write_if_changed(os.path.join(d, "c20_assign_fn.inc"), "\n\n".join(ass) + "\n")
+    except (RuntimeError, OSError):
+        _SI4["assign_text"] = None
+        common.write_if_changed(os.path.join(d, "c20_assign_fn.inc"), "#error assignment handlers not found\n")
     return si4, render, stub_rach
 
 
@@ -126,7 +139,13 @@ def build_si4(ctx):
     flags = "-I%s/charness/stubs/c20 -I%s/src/host/layer23/include -I%s/include -I%s/c" % (ROOT, REPO, LIBOSMO, WORK)
     src = [os.path.join(ROOT, "charness/c20_si4.c")]
     with_render = False
-    if render is not None:
+    _SI4["assign"] = False
+    if render is not None and _SI4.get("assign_text"):
+        ok, path, log = common.cc("c20_si4", src, flags=flags + " -DC20_WITH_RENDER -DC20_WITH_ASSIGN")
+        with_render = _SI4["assign"] = ok
+        if not ok:
+            ctx.note("the immediate-assignment handlers do not compile in the harness (message -> mob_alloc_lv not executed): " + log[-400:].replace("\n", " | "))
+    if render is not None and not with_render:
         ok, path, log = common.cc("c20_si4", src, flags=flags + " -DC20_WITH_RENDER")
         with_render = ok
         if not ok:
@@ -151,7 +170,6 @@ def gen(ctx):
             "Definition c_SI4_HDR_SIZE : Z := %d.\nDefinition c_CHAN_DESC_SIZE : Z := %d.\nDefinition c_MOB_ALLOC_LV_SIZE : Z := %d.\n"
             "Definition c_CAUSE_NO_CELL_ALLOC_A : Z := %d.\nDefinition c_SI4_MSG_SIZE : Z := %d.\n" % (eio, ie_cd, ie_ma, hdr, cdsz, lvsz, cause, msgsz))
     ctx.gen("MobAllocSi4Const", txt)
-    _SI4.clear()
     _SI4.update(bin=si4bin, render=with_render, hdr=hdr, lv=lvsz, msgsz=msgsz,
                 si4_sha=hashlib.sha256(si4_text.encode()).hexdigest(),
                 render_sha=hashlib.sha256(render_text.encode()).hexdigest() if render_text else None)
